@@ -71,6 +71,14 @@ def vhArg (s : String) : Option Vbptc.Arg :=
   | some k => some (.ref k)
   | none => (vhObj s).map .lit
 
+/-- an optional flag (`even_parity`, `include_cs5`, `include_crc8`): passed (`0` / `1`) or omitted (`d`;
+the default is `True` for all three) -/
+def vhFlag : String → Option Bool
+  | "0" => some false
+  | "1" => some true
+  | "d" => some true
+  | _ => none
+
 def vhCls : String → Option Vbptc.Cls
   | "128" => some .c128
   | "68" => some .c68
@@ -80,11 +88,11 @@ def vhCls : String → Option Vbptc.Cls
 def vhStepOf (op : String) (args : List String) : Option Vbptc.Step :=
   match op, args with
   | "vh.new", [o] => (vhObj o).map .new
-  | "vh.encode", [c, e, a] => do some (.encode (← vhCls c) (← vbBool e) (← vhArg a))
-  | "vh.data", [c, i, a] => do some (.data (← vhCls c) (← vbBool i) (← vhArg a))
+  | "vh.encode", [c, e, a] => do some (.encode (← vhCls c) (← vhFlag e) (← vhArg a))
+  | "vh.data", [c, i, a] => do some (.data (← vhCls c) (← vhFlag i) (← vhArg a))
   | "vh.all", [c, a] => do some (.all (← vhCls c) (← vhArg a))
   | "vh.cs", [c, a] => do some (.cs (← vhCls c) (← vhArg a))
-  | "vh.setparity", [c, e, a] => do some (.setParity (← vhCls c) (← vbBool e) (← vhArg a))
+  | "vh.setparity", [c, e, a] => do some (.setParity (← vhCls c) (← vhFlag e) (← vhArg a))
   | "vh.make", [c] => do some (.make (← vhCls c))
   | "vh.fill", [c, t, a] => do some (.fill (← vhCls c) (← vhRef t) (← vhArg a))
   | "vh.cs5calc", [a] => do some (.cs5calc (← vhArg a))
